@@ -52,7 +52,9 @@ ENCODED = ["ReservedHeapSection::push_pstr_segment", "scan_slice_to_str",
            "Heap::copy_pstr_within", "Heap::last_str_char_and_tail",
            "heap::compare_pstr_slices (tail-index construction, mismatch window; engine M)",
            "ParallelHeapIter::next (strings against lists under compare/3: arm order and sides; engine M, "
-           "shared with C13)"]
+           "shared with C13)",
+           "CopyTermState::copy_partial_string (engine M: a newly registered string is marked and its old "
+           "first cell trailed under the same index)"]
 ASSUME = ["string lengths are compile-time constants per harness; bytes are symbolic non-NUL ASCII",
           "one string per harness, written at cell 0..2 of a fresh heap"]
 BOUNDS = ("lengths {1,7,8} quick, +{2,6,9,15,16,17} thorough; index identities for every length "
